@@ -298,8 +298,8 @@ def cases(ctx):
     rng = ctx.rng
     tab = T()
     types = [t for t in tab.types if t["kind"] in ("schema", "hand")]
-    n_enc = ctx.n(14, 420)
-    n_dec = ctx.n(26, 900)
+    n_enc = ctx.n(14, 240)
+    n_dec = ctx.n(26, 500)
     for t in types:
         # ---- values -> wire
         specimens = []
@@ -390,7 +390,7 @@ def cases(ctx):
                     ctx.count("dec:bitflip")
                     yield dec_case(cl, t["rdtype"], bytes(m), 0, len(m), o)
     # unknown types through the value path (GenericRdata)
-    for _ in range(ctx.n(20, 400)):
+    for _ in range(ctx.n(20, 300)):
         data = R.gen_bytes(rng, R.gen_len(rng, 0, 65535, None))
         ty, cl = rng.choice(UNKNOWN_TYPES[:2] + [rng.randrange(65280, 65535)]), rng.choice([1, 3, 255, 4])
         yield "enc-generic", [1, cl, ty, [data], None]
@@ -443,7 +443,7 @@ def histories(ctx):
     ]
     for h in fixed:
         yield h
-    for _ in range(ctx.n(14, 260)):
+    for _ in range(ctx.n(14, 150)):
         h = []
         for _ in range(rng.randint(2, 8)):
             if rng.random() < 0.18:
@@ -783,6 +783,11 @@ def oracle(ctx, kind, case, out):
 
 def norm_vals(t, vals):
     """value normalisation that the codec is allowed to perform (still an equal record)"""
+    if t["kind"] == "hand" and t["hand"] == "loc":
+        # hemisphere of a zero coordinate is not representable (reader answers +1)
+        def c(x):
+            return list(x[:4]) + [1] if list(x[:4]) == [0, 0, 0, 0] else list(x)
+        return [c(vals[0]), c(vals[1])] + list(vals[2:])
     if t["kind"] == "hand" and t["hand"] == "apl":
         # unknown address families: trailing zero octets of the address are trimmed on the wire
         return [[[f, n, a if f in (1, 2) else bytes(a).rstrip(b"\0"), p] for f, n, a, p in vals[0]]]
